@@ -165,6 +165,17 @@ def directed_schedules():
                 s.append({"ev": "Deadline", "d": d})
                 s.append({"ev": "Deadline", "d": p})
                 out.append(s)
+    # second prerequisite (attestation data / sync message) stuck at every step, with and without an error, the first one complete
+    for main, dep, second in (("aggregator", "prepare_aggregator", "attester"),
+                              ("sync_contribution", "prepare_sync_contribution", "sync_message")):
+        for upto in STEPS[:9]:
+            for lasterr in ("nil", "other"):
+                d, p, q = duty(1, main), duty(1, dep), duty(1, second)
+                s = [cfg] + [call(st, p, ["a"], "nil", 2 if st == "parsig_db_external" else 1, "x") for st in STEPS[:9]]
+                flow = STEPS[:STEPS.index(upto) + 1]
+                s += [call(st, q, ["a"], lasterr if st == upto else "nil", 2 if st == "parsig_db_external" else 1, "x") for st in flow]
+                s += [call("fetcher", d, ["a"], "deadline"), {"ev": "Deadline", "d": d}]
+                out.append(s)
     # the unsupported-ignorer: zero selections are ignored until an aggregation duty went through once
     for main, dep in (("aggregator", "prepare_aggregator"), ("sync_contribution", "prepare_sync_contribution")):
         s = [cfg]
@@ -339,7 +350,7 @@ def _conformance(o, thorough, seed):
     # validated against the as-coded table (deviation switched on), otherwise against the contract like everything else.
     kw = dict(chunk=150)
     probes = [[{"ev": "Config", "n": 3, "from": 0, "incl": False, "exempt": []}, call("fetcher", duty(1, t), ["a"], "bnptr"),
-               {"ev": "Deadline", "d": duty(1, t)}] for t in ("attester", "sync_message")]
+               {"ev": "Deadline", "d": duty(1, t)}] for t in ("attester",)]
     vlib.conformance(o, FAMILY, "TrackerTrace", "TrackerTrace.cfg", PKG, probes, tag="trk_probe", dev_cfgs=DEV_CFGS, **kw)
     as_coded = any(fid == FINDING for fid, _ in o.known)
     allsch = directed_schedules() + gen + rnd
